@@ -10,7 +10,7 @@ import json
 
 import graphhist as gh
 import progs
-from common import known_findings, rng_for, run_impl_parallel
+from common import HarnessError, known_findings, rng_for, run_impl_parallel
 
 KINDS = {"bool": "KBool", "int8": "KInt", "int32": "KInt", "int64": "KInt", "uint8": "KInt",
          "float16": "KFloat", "float32": "KFloat", "float64": "KFloat", "complex64": "KOther"}
@@ -64,9 +64,15 @@ def lattice():
         ca_eff = ca if KINDS[ka] == "KFloat" else True
         tasks.append({"what": "pow_op", "kind": None, "ka": ka, "ca": ca, "cb": cb, "pval": pval, "track": True, "arg": None})
         models.append((1, "KFloat", True, None, [ca_eff, cb]))
+    # out=<plain ndarray>: an ordinary operation whose result lands in the caller's array -- the op rule applies, incl. an explicit constant=
+    for what in ("out_array_binary", "out_array_unary", "out_array_where"):
+        for ka, ca, arg in itertools.product(["float64", "float32", "int64"], (True, False), ARGS):
+            ca_eff = ca if KINDS[ka] == "KFloat" else True
+            tasks.append({"what": what, "kind": None, "ka": ka, "ca": ca, "track": True, "arg": arg})
+            models.append((1, "KFloat", True, arg, [ca_eff]))
     # in-place targets: out=, augmented assignment, item assignment
-    for what in ("out_target", "iadd_target", "setitem_target"):
-        for cz, ka, ca, arg in itertools.product((True, False), ["float64", "float32", "int64"], (True, False), ARGS if what == "out_target" else [None]):
+    for what in ("out_target", "out_where_target", "out_unary_target", "out_where_unary_target", "out_np_where_target", "iadd_target", "setitem_target"):
+        for cz, ka, ca, arg in itertools.product((True, False), ["float64", "float32", "int64"], (True, False), ARGS if what.startswith("out_") and "np" not in what else [None]):
             ca_eff = ca if KINDS[ka] == "KFloat" else True
             tasks.append({"what": what, "kind": None, "cz": cz, "ka": ka, "ca": ca, "track": True, "arg": arg})
             models.append((3, "KFloat", True, arg, [cz, ca_eff]))
@@ -186,6 +192,30 @@ def run(rep, work, tier, seed, props, replay=None):
         k = sorted(bad, key=lambda k: len(kb[k].stmts))[0]
         rep.violation({"kind": "constant flags / gradients differ from Model/GraphP.v (op rule, constants never receive gradients)", "stmts": kb[k].stmts, "impl": kr[k],
                        "n_disagreements": len(bad)})
+    # every operation of the catalogue: arrays and constant tensors are constants, the result is constant exactly when every input is,
+    # constants never hold a gradient (5 input-flag patterns per entry)
+    sweep, sweep_bad, sweep_skipped = [], 0, 0
+    if replay is None or "catalog_index" in (replay or {}):
+        info = run_impl_parallel("ops_impl.py", [{"list": True}])[0]
+        idx = list(range(info["n"])) if replay is None else [replay["catalog_index"]]
+        svariants = [0, 1, 2, 3, 4] if replay is None else [replay.get("variant", 0)]
+        stasks = [{"index": i, "mode": "const", "variant": v, "seed": seed} for v in svariants for i in idx]
+        parts = [stasks[i::16] for i in range(16)]
+        flat = [t for p in parts for t in p]
+        for rr in run_impl_parallel("ops_impl.py", [{"tasks": p} for p in parts if p]):
+            sweep.extend(rr["results"])
+        shown = set()
+        for t, r in zip(flat, sweep):
+            if "harness_error" in r:
+                raise HarnessError("ops_impl: " + r["harness_error"])
+            if r.get("skipped"):
+                sweep_skipped += 1
+            for m in r.get("msgs", []):
+                sweep_bad += 1
+                key = (r["label"].split("(")[0].split(" ")[0], m)
+                if key not in shown and len(shown) < 6:
+                    shown.add(key)
+                    rep.violation({"kind": "operation sweep: %s -- %s (input pattern %d)" % (r["label"], m, t["variant"]), "catalog_index": t["index"], "variant": t["variant"], "seed": t["seed"]})
     if not props["ok"]:
         rep.violation({"kind": "proof obligations of Props/C10.v no longer check", "broken": "Props/C10.v", "log": props["log"][-1500:]}, no_input=not (lat_bad or bad))
 
@@ -194,7 +224,8 @@ def run(rep, work, tier, seed, props, replay=None):
         return (True in flags or False in flags) and any(s["op"] == "apply" and s.get("const") is not None for s in b.stmts)
     nt = set(progs.canonical(b) for b in kb if nontrivial(b))
     rep.coverage.update({
-        "evaluations": len(tasks) + len(kb) + len(variants),
+        "evaluations": len(tasks) + len(kb) + len(variants) + len(sweep),
+        "operation_sweep": {"entries_x_patterns": len(sweep), "skipped": sweep_skipped, "messages": sweep_bad},
         "distinct_nontrivial": len(nt) + len(set(json.dumps(t, sort_keys=True) for t in tasks if t["arg"] is not None)),
         "rule": "lattice: every cell of {tensor, Tensor, astensor} x 9 dtypes x tracking x constant in {None,True,False}; {add,multiply,maximum} x 4x4 operand dtypes x operand flags x tracking x constant; "
                 "reshape/sum/copy/astype likewise (complete).  Programs: C01 generator with constant leaves, int leaves and constant= overrides, 1-2 backward calls; non-trivial program = mixed flags with >= 1 override; "
